@@ -153,7 +153,7 @@ Recip(d, P) ==                                   \* 1/d, d # 0
   LET top == d.m[Len(d.m)]
       g == (B * B) \div (top + 1)                \* 1/(top+1) scaled by B^2
       x0 == LET r == FromInt(g) IN [r EXCEPT !.e = @ - 2 - (Top(d) - 1)]
-      it == Log2Ceil(4 * P) + 5                  \* error halves its exponent each step from <= 1/2
+      it == Log2Ceil(14 * P) + 2                 \* relative error e -> e^2 from e0 <= 1/2: 2^it > 13.3 bits * P limbs
   IN [Trunc(NewtonRecip(Abs(d), x0, P, it), P) EXCEPT !.s = d.s]
 Div(x, y, P) == MulP(x, Recip(y, P + 1), P)
 
@@ -182,6 +182,20 @@ Expm1Neg(y, P) ==                                \* returns 1 - exp(-y), y >= 0
   ELSE IF Top(y) < 0 \/ (Top(y) = 0 /\ y.m[Len(y.m)] < 39)
        THEN Neg(Trunc(TaylorExp(Neg(y), One, 1, Zero, P + 4), P))
        ELSE Sub(One, Exp(Neg(y), P + 2))
+
+\* ---- cos (radians), by halving the angle, Taylor series, and the double-angle formula ---------
+RECURSIVE TaylorCos(_, _, _, _, _)
+TaylorCos(y2, term, j, sum, P) ==                  \* term_j = -term_(j-1) y^2 / ((2j-1)(2j))
+  IF term.s = 0 \/ Top(term) < -(P + 1) THEN sum
+  ELSE LET t == Neg(DivInt(MulP(term, y2, P + 2), (2 * j - 1) * (2 * j), P + 2))
+       IN TaylorCos(y2, t, j + 1, Add(sum, t), P)
+RECURSIVE DoubleK(_, _, _)
+DoubleK(c, k, P) == IF k = 0 THEN c ELSE DoubleK(Sub(MulInt(MulP(c, c, P), 2), One), k - 1, P)
+Cos(x, P) ==
+  IF x.s = 0 THEN One
+  ELSE LET hk == HalveUntilSmall(Trunc(Abs(x), P + 4), 0)
+           base == TaylorCos(MulP(hk[1], hk[1], P + 4), One, 1, One, P + 4)
+       IN Trunc(DoubleK(base, hk[2], P + 4), P)
 
 \* ---- tolerant comparison ------------------------------------------------
 Tol(r) == Sci(1, r)                              \* 10^r
